@@ -1294,3 +1294,27 @@ REFACTORS += [
     dict(name='tracker_first_checked_with_question_mark', desc='from_file_numbers tests emptiness through `first()?`',
          edits=[(FNUM, '        if file_numbers.is_empty() {\n            return None;\n        }\n', '        let _first = file_numbers.first()?;\n')]),
 ]
+
+# ---- mutants for the rules / clauses added after the fifth seeded round (DESIGN §12)
+MUTANTS += [
+    dict(name='replay_delete_unknown_queue_is_fatal', props=['C01', 'C18'], rules=['RP6'], desc='replaying a DeleteQueue for a queue replay does not know fails the open',
+         edits=[(MRL, '                        let _ = in_mem_queues.delete_queue(queue);', '                        in_mem_queues\n                            .delete_queue(queue)\n                            .map_err(|_| ReadRecordError::Corruption)?;')]),
+    dict(name='gc_gate_counts_candidates', props=['C06'], rules=['GC6'], desc='GC gate rewritten as count() - 1 > 1 (three files needed)',
+         edits=[(DIR, '        self.files.count() >= 2 && self.files.first().can_be_deleted()', '        let num_candidates = self.files.count() - 1;\n        num_candidates > 1 && self.files.first().can_be_deleted()')]),
+    dict(name='header_rejected_for_zero_checksum', props=['C09'], rules=['FR9'], desc='Header::deserialize rejects a header whose checksum is zero',
+         edits=[(HDR, '        let frame_type = FrameType::from_u8(data[6])?;\n', '        let frame_type = FrameType::from_u8(data[6])?;\n        if checksum == 0u32 {\n            return None;\n        }\n')]),
+    dict(name='partial_truncate_keeps_small_prefix', props=['C16'], rules=['MA5'], desc='the payload bytes of a partial truncation are cut only when at least 512 bytes are reclaimed',
+         edits=[(Q, '''        for record_meta in &mut self.record_metas {
+            record_meta.start_offset -= start_offset_to_keep;
+        }
+        self.concatenated_records
+            .truncate_head(..start_offset_to_keep);''', '''        if start_offset_to_keep >= 512 {
+            for record_meta in &mut self.record_metas {
+                record_meta.start_offset -= start_offset_to_keep;
+            }
+            self.concatenated_records
+                .truncate_head(..start_offset_to_keep);
+        }''')]),
+    dict(name='recycled_queue_on_create', props=['C01', 'C04'], rules=['MQ1'], desc='create_queue re-uses the MemQueue of the last deleted queue',
+         edits=[(QS, '        self.queues.insert(queue.to_string(), MemQueue::default());', '        let mem_queue = self.queues.remove("").unwrap_or_default();\n        self.queues.insert(queue.to_string(), mem_queue);')]),
+]
